@@ -174,3 +174,96 @@ pub fn um_body(exp: Exp, m: &AnyMask, guid: u64) -> Option<Vec<u8>> {
     };
     Some(v)
 }
+
+// ---------------------------------------------------------------------------------------------
+// structured accessors (visible item, skill info): set / get round trip through the typed API
+
+macro_rules! structured {
+    ($e:ident, $variant:ident, $mk_vi:expr) => {
+        pub mod $e {
+            use super::*;
+            use wow_world_messages::$e as L;
+
+            pub fn skill(n: u32) -> L::Skill {
+                for c in [6u16, 8, 26, 38, 39, 40, 43, 44, 45, 46, 54, 55, 95] {
+                    let c = c + 0 * (n as u16);
+                    if let Ok(s) = L::Skill::try_from(c) {
+                        if n % 13 == (c as u32) % 13 || c == 95 {
+                            return s;
+                        }
+                    }
+                }
+                L::Skill::try_from(6u16).unwrap_or_default()
+            }
+
+            /// returns (Debug of the value set, Debug of what the getter returns afterwards, Debug of the getter of a neighbour index)
+            pub fn visible_item(m: &mut AnyMask, idx: u8, n: u32, neighbour: u8) -> Option<(String, String, String)> {
+                let AnyMask::$variant(x) = m else { return None };
+                let i = L::VisibleItemIndex::try_from(idx).ok()?;
+                let j = L::VisibleItemIndex::try_from(neighbour).ok()?;
+                let v: L::VisibleItem = $mk_vi(n);
+                x.set_player_visible_item(v, i);
+                let i = L::VisibleItemIndex::try_from(idx).ok()?;
+                Some((format!("{:?}", Some(v)), format!("{:?}", x.player_visible_item(i)), format!("{:?}", x.player_visible_item(j))))
+            }
+
+            pub fn get_visible_item(m: &AnyMask, idx: u8) -> Option<String> {
+                let AnyMask::$variant(x) = m else { return None };
+                let i = L::VisibleItemIndex::try_from(idx).ok()?;
+                Some(format!("{:?}", x.player_visible_item(i)))
+            }
+
+            pub fn skill_info(m: &mut AnyMask, idx: u16, n: u32, neighbour: u16) -> Option<(String, String, String)> {
+                let AnyMask::$variant(x) = m else { return None };
+                let i = L::SkillInfoIndex::try_from(idx).ok()?;
+                let j = L::SkillInfoIndex::try_from(neighbour).ok()?;
+                let v = L::SkillInfo::new(skill(n), n as u16, (n >> 3) as u16 | 1, (n >> 5) as u16 | 2, (n >> 7) as u16 | 4, (n >> 9) as u16 | 8);
+                x.set_player_skill_info(v, i);
+                let i = L::SkillInfoIndex::try_from(idx).ok()?;
+                Some((format!("{:?}", Some(v)), format!("{:?}", x.player_skill_info(i)), format!("{:?}", x.player_skill_info(j))))
+            }
+
+            pub fn get_skill_info(m: &AnyMask, idx: u16) -> Option<String> {
+                let AnyMask::$variant(x) = m else { return None };
+                let i = L::SkillInfoIndex::try_from(idx).ok()?;
+                Some(format!("{:?}", x.player_skill_info(i)))
+            }
+        }
+    };
+}
+
+structured!(vanilla, VANILLAPlayer, |n: u32| wow_world_messages::vanilla::VisibleItem::new(wow_world_messages::Guid::new(((n as u64) << 32) | 0x0101), n | 1, [n ^ 0x55, n.rotate_left(7) | 2], n.rotate_left(13) | 4, n.rotate_left(19) | 8));
+structured!(tbc, TBCPlayer, |n: u32| wow_world_messages::tbc::VisibleItem::new(wow_world_messages::Guid::new(((n as u64) << 32) | 0x0101), n | 1, [n ^ 0x55, n.rotate_left(3) | 2, n.rotate_left(5) | 2, n.rotate_left(7) | 2, n.rotate_left(9) | 2, n.rotate_left(11) | 2], n.rotate_left(13) | 4, n.rotate_left(19) | 8));
+structured!(wrath, WRATHPlayer, |n: u32| wow_world_messages::wrath::VisibleItem::new(n | 1, [(n >> 3) as u16 | 2, (n >> 9) as u16 | 4]));
+
+/// (set value, getter result, neighbour getter result) as Debug strings
+pub fn um_struct_set(exp: Exp, m: &mut AnyMask, which: &str, idx: u16, n: u32, neighbour: u16) -> Option<(String, String, String)> {
+    match (exp, which) {
+        (Exp::Vanilla, "visible_item") => vanilla::visible_item(m, idx as u8, n, neighbour as u8),
+        (Exp::Tbc, "visible_item") => tbc::visible_item(m, idx as u8, n, neighbour as u8),
+        (Exp::Wrath, "visible_item") => wrath::visible_item(m, idx as u8, n, neighbour as u8),
+        (Exp::Vanilla, "skill_info") => vanilla::skill_info(m, idx, n, neighbour),
+        (Exp::Tbc, "skill_info") => tbc::skill_info(m, idx, n, neighbour),
+        (Exp::Wrath, "skill_info") => wrath::skill_info(m, idx, n, neighbour),
+        _ => None,
+    }
+}
+
+pub fn um_struct_get(exp: Exp, m: &AnyMask, which: &str, idx: u16) -> Option<String> {
+    match (exp, which) {
+        (Exp::Vanilla, "visible_item") => vanilla::get_visible_item(m, idx as u8),
+        (Exp::Tbc, "visible_item") => tbc::get_visible_item(m, idx as u8),
+        (Exp::Wrath, "visible_item") => wrath::get_visible_item(m, idx as u8),
+        (Exp::Vanilla, "skill_info") => vanilla::get_skill_info(m, idx),
+        (Exp::Tbc, "skill_info") => tbc::get_skill_info(m, idx),
+        (Exp::Wrath, "skill_info") => wrath::get_skill_info(m, idx),
+        _ => None,
+    }
+}
+
+/// object kind of a mask value ("Item", "Container", ...)
+pub fn um_kind(m: &AnyMask) -> String {
+    let d = format!("{:?}", m);
+    let head = d.split('(').next().unwrap_or("");
+    head.trim_start_matches("VANILLA").trim_start_matches("TBC").trim_start_matches("WRATH").to_string()
+}
